@@ -479,4 +479,176 @@ theorem noNone_wfB : ∀ e, wfB e = true → NoNone e := by
       obtain ⟨h1, h2⟩ := noNoneB a r (fun x hx => ih x hx (hwf x hx)) hub hnn acc hacc
       exact ⟨by simpa [pcs] using h1, by simpa [pcs] using h2, by intro hb; simp [isBor] at hb⟩
 
+/-! ### `_remove_none_from_union(text, use_union_operator=True)` on a printed expression -/
+
+/-- all parts of `print e` -/
+def full (e : TExpr) : List Str := (pcs e []).1 ++ [(pcs e []).2]
+
+theorem full_ne_nil (e : TExpr) : full e ≠ [] := by simp [full]
+
+/-- `if not processed_parts: return NONE` / `" | ".join(processed_parts)` -/
+def noneIfEmpty (L : List Str) : Str := match L with
+  | [] => sNone
+  | parts => joinSep sPipe parts
+
+theorem noneIfEmpty_ne_nil {L : List Str} (h : L ≠ []) : noneIfEmpty L = joinSep sPipe L := by
+  cases L with
+  | nil => exact absurd rfl h
+  | cons a r => rfl
+
+theorem removeNoneB_eq (s : Str) : removeNoneB s =
+    if containsSub sPipe s then noneIfEmpty ((splitPipe s).filter (· ≠ sNone)) else s := by
+  unfold removeNoneB noneIfEmpty
+  split <;> rfl
+
+theorem containsSub_pipe (x y : Str) : containsSub sPipe (x ++ sPipe ++ y) = true := by
+  induction x with
+  | nil => simp [sPipe, containsSub]
+  | cons c cs ih =>
+    simp only [List.cons_append, containsSub, Bool.or_eq_true]
+    exact Or.inr (by simpa using ih)
+
+theorem filter_id_of_noNone (L : List Str) (h : ∀ p ∈ L, p ≠ sNone) : L.filter (· ≠ sNone) = L := by
+  apply List.filter_eq_self.mpr
+  intro p hp; simpa using h p hp
+
+/-- a unit other than `None` has no part `None` -/
+theorem full_unit_noNone (e : TExpr) (hw : wfB e = true) (hu : isBor e = false) (hn : isNoneE e = false) :
+    ∀ p ∈ full e, p ≠ sNone := by
+  obtain ⟨h1, _, h3⟩ := noNone_wfB e hw [] (Or.inl rfl)
+  intro p hp
+  simp only [full, List.mem_append, List.mem_singleton] at hp
+  rcases hp with hp | rfl
+  · exact h1 p hp
+  · intro hc
+    have := (h3 hu hc).2
+    rw [hn] at this; cases this
+
+theorem full_none (e : TExpr) (hn : isNoneE e = true) : full e = [sNone] := by
+  cases e with
+  | atom s =>
+    simp only [isNoneE, decide_eq_true_eq] at hn
+    subst hn
+    simp [full, pcs, Dcg.Sem.Typing.sNone, sNone]
+  | app h args => simp [isNoneE] at hn
+  | bor args => simp [isNoneE] at hn
+
+/-- a unit is left alone (`List[int | None]` keeps its inner `None`: that part reads `None]`) -/
+theorem removeNoneB_unit (e : TExpr) (hw : wfB e = true) (hu : isBor e = false) :
+    removeNoneB (print e) = print e := by
+  cases hn : isNoneE e with
+  | true =>
+    have := full_none e hn
+    rw [← pcs_join e]
+    simp only [full] at this
+    rw [this]
+    decide
+  | false =>
+    rw [removeNoneB_eq]
+    split
+    · rw [splitPipe_print e hw]
+      have hf := filter_id_of_noNone _ (full_unit_noNone e hw hu hn)
+      simp only [full] at hf
+      rw [hf, noneIfEmpty_ne_nil (by simp), pcs_join]
+    · rfl
+
+theorem joinSep_append (sep : Str) : ∀ (A B : List Str), A ≠ [] → B ≠ [] →
+    joinSep sep (A ++ B) = joinSep sep A ++ sep ++ joinSep sep B := by
+  intro A
+  induction A with
+  | nil => intro B h; exact absurd rfl h
+  | cons a l ih =>
+    intro B _ hB
+    cases l with
+    | nil =>
+      cases B with
+      | nil => exact absurd rfl hB
+      | cons b r => simp [joinSep]
+    | cons a' r =>
+      have := ih B (by simp) hB
+      simp only [List.cons_append] at this ⊢
+      rw [joinSep_cons_cons, this, joinSep_cons_cons]
+      simp [List.append_assoc]
+
+theorem flatMap_full_ne_nil (ys : List TExpr) (h : ys ≠ []) : ys.flatMap full ≠ [] := by
+  cases ys with
+  | nil => exact absurd rfl h
+  | cons y r =>
+    simp only [List.flatMap_cons]
+    intro hc
+    exact full_ne_nil y (List.append_eq_nil_iff.mp hc).1
+
+theorem join_flat : ∀ (ys : List TExpr), ys ≠ [] →
+    joinSep sPipe (ys.flatMap full) = joinSep sPipe (ys.map print) := by
+  intro ys
+  induction ys with
+  | nil => intro h; exact absurd rfl h
+  | cons y r ih =>
+    intro _
+    cases r with
+    | nil => simp [joinSep, full, pcs_join]
+    | cons y' r' =>
+      simp only [List.flatMap_cons, List.map_cons] at ih ⊢
+      rw [joinSep_append sPipe _ _ (full_ne_nil y) (by
+        intro hc; exact full_ne_nil y' (List.append_eq_nil_iff.mp hc).1), ih (by simp), joinSep_cons_cons]
+      simp only [full, pcs_join, List.append_assoc]
+
+theorem fullB_flat : ∀ (e : TExpr) (es : List TExpr),
+    (pcsB (e :: es) []).1 ++ [(pcsB (e :: es) []).2] = (e :: es).flatMap full := by
+  intro e es
+  induction es generalizing e with
+  | nil => simp [pcsB_single, full]
+  | cons e' r ih =>
+    rw [pcsB_cons_cons, List.flatMap_cons, ← ih e']
+    simp [full, List.append_assoc]
+
+theorem filter_flat : ∀ (xs : List TExpr), (∀ a ∈ xs, wfB a = true) → (∀ a ∈ xs, isBor a = false) →
+    (xs.flatMap full).filter (· ≠ sNone) = (xs.filter (fun e => !isNoneE e)).flatMap full := by
+  intro xs
+  induction xs with
+  | nil => intro _ _; rfl
+  | cons x r ih =>
+    intro hw hu
+    rw [List.flatMap_cons, List.filter_append, ih (fun a ha => hw a (List.mem_cons_of_mem _ ha))
+      (fun a ha => hu a (List.mem_cons_of_mem _ ha))]
+    cases hn : isNoneE x with
+    | true =>
+      rw [full_none x hn]
+      simp [hn]
+    | false =>
+      rw [filter_id_of_noNone _ (full_unit_noNone x (hw x (List.mem_cons_self ..)) (hu x (List.mem_cons_self ..)) hn)]
+      simp [hn]
+
+/-- MAIN LEMMA: on the printed form of an expression of the `|` spelling, the string surgery
+(split at every `|`, drop the parts that read `None`, re-join) is the structural removal of the
+`None` alternatives of the top-level union. -/
+theorem removeNoneB_print (e : TExpr) (hw : wfB e = true) : removeNoneB (print e) = print (rmB e) := by
+  cases e with
+  | atom s => exact removeNoneB_unit _ hw rfl
+  | app h args => exact removeNoneB_unit _ hw rfl
+  | bor args =>
+    obtain ⟨hlen, hwf, hub, _⟩ := wfB_bor_parts hw
+    match args, hlen with
+    | a :: b :: r, _ =>
+      rw [removeNoneB_eq]
+      have hc : containsSub sPipe (print (.bor (a :: b :: r))) = true := by
+        rw [print_bor, printL_cons_cons]
+        have := containsSub_pipe (print a) (printL sPipe (b :: r))
+        have e1 : Dcg.Sem.Typing.sPipe = sPipe := rfl
+        rw [e1]; simpa [List.append_assoc] using this
+      rw [if_pos hc, splitPipe_print _ hw]
+      simp only [pcs]
+      rw [fullB_flat, filter_flat _ hwf hub]
+      simp only [rmB]
+      generalize hys : (a :: b :: r).filter (fun e => !isNoneE e) = ys
+      match ys with
+      | [] => simp [noneIfEmpty, mkBorE, eNone, print_atom, Dcg.Sem.Typing.sNone, sNone]
+      | [p] =>
+        rw [noneIfEmpty_ne_nil (flatMap_full_ne_nil _ (by simp)), join_flat _ (by simp)]
+        simp [mkBorE, joinSep]
+      | p :: q :: r' =>
+        rw [noneIfEmpty_ne_nil (flatMap_full_ne_nil _ (by simp)), join_flat _ (by simp)]
+        simp only [mkBorE]
+        rw [print_bor, printL_eq_joinSep]; rfl
+
 end Dcg.Proofs.TypesOp
